@@ -526,6 +526,9 @@ Inductive case :=
    When the reported count is not in 1..1000 nothing is enumerated (empty lists). *)
 | CPat (pattern : bytes)
        (obs : option (Z * list bytes * list (bytes * list comp) * list (bytes * bool * list bool)))
+       (* the other entry point, json.Unmarshal -> PathPattern.UnmarshalJSON: None = error, else NumVariants() and the
+          number of raw expansions enumerated (the driver stops at 1001) *)
+       (js : option (Z * N))
 (* variants all matching `path`, given as (variant string, components with the regex submatch of each on the path);
    cmps = Compare(i, j) for all ordered pairs in row order; perms = for each permutation (as index list) the index of the
    variant HighestPrecedencePattern returned (by its string) *)
@@ -541,7 +544,14 @@ Fixpoint zl_eqb (a b : list Z) : bool :=
 
 Definition mismatch (c : case) : bool :=
   match c with
-  | CPat p obs =>
+  | CPat p obs js =>
+      (* every entry point is the one function parse_pattern *)
+      match parse_pattern p, js with
+      | None, None => false
+      | Some t, Some (nj, _) => negb (nj =? num_variants64 t)%Z
+      | _, _ => true
+      end
+      ||
       match parse_pattern p, obs with
       | None, None => false
       | Some t, Some (n, raws, vars, paths) =>
@@ -575,14 +585,17 @@ Definition mismatch (c : case) : bool :=
   end.
 
 (* the property on the observed behaviour, without the model functions:
-   CPat: the reported count equals the number of enumerated expansions (the driver stops enumerating at 1001) and of
+   CPat: ParsePathPattern and json.Unmarshal (UnmarshalJSON) agree on accept/reject and on the count; the reported count equals the number of enumerated expansions (the driver stops enumerating at 1001) and of
    rendered variants, and is at most 1000; for every path the original pattern matches iff some rendered variant matches.
    CPrec: every permutation selects the same variant; Compare is sign-antisymmetric and 0 only between equal variants. *)
 Definition monitor_fail (c : case) : bool :=
   match c with
-  | CPat _ None => false
-  | CPat _ (Some (n, raws, vars, paths)) =>
-      negb (n =? Z.of_nat (length raws))%Z || (1000 <? n)%Z
+  | CPat _ None None => false
+  | CPat _ None (Some _) => true                       (* accepted by one entry point, rejected by the other *)
+  | CPat _ (Some _) None => true
+  | CPat _ (Some (n, raws, vars, paths)) (Some (nj, cj)) =>
+      negb (nj =? n)%Z || negb (nj =? Z.of_N cj)%Z
+      || negb (n =? Z.of_nat (length raws))%Z || (1000 <? n)%Z
       || (if (0 <? n)%Z && (n <=? 1000)%Z then negb (n =? Z.of_nat (length vars))%Z else false)
       || existsb (fun pm => match pm with (_, orig, vm) => negb (Bool.eqb orig (existsb (fun b => b) vm)) end) paths
   | CPrec _ vs cmps perms =>
